@@ -21,6 +21,10 @@ PEERS = {
     "lo6": ("::1", 41001, 0, 0),
     "ext": ("10.9.8.7", 41002),
     "unix": "",
+    # addresses that merely *look like* listed ones (prefix / substring of an allowed address)
+    "ext-longer": ("10.9.8.70", 41003),
+    "lo4-longer": ("127.0.0.10", 41004),
+    "ext-shorter": ("10.9.8", 41005),
 }
 ALLOW = ["127.0.0.1,::1", "*", "10.9.8.7", ""]
 FWD_HEADERS = ["SCRIPT_NAME,PATH_INFO", "*", "", "X_CUSTOM,REMOTE_USER"]
